@@ -80,6 +80,16 @@ pub struct SimProc {
     pub op_log_start: usize,
     pub eintr_left: u8,
     pub eintr_hit: u32,
+    /// job-control state: a stopped child does not run (its exit is put off) and
+    /// is reported by waitpid only to callers that ask with WUNTRACED
+    pub stopped: bool,
+    pub stopped_at: i64,
+    pub stop_sig: i32,
+    pub stop_unreported: bool,
+    pub cont_unreported: bool,
+    /// signal that arrived while stopped; acted upon when the child continues
+    pub pending_sig: Option<i32>,
+    pub stops: u32,
 }
 
 pub fn status_word_exit(code: u8) -> i32 {
@@ -117,12 +127,32 @@ impl SimProc {
             op_log_start: 0,
             eintr_left: 0,
             eintr_hit: 0,
+            stopped: false,
+            stopped_at: 0,
+            stop_sig: 0,
+            stop_unreported: false,
+            cont_unreported: false,
+            pending_sig: None,
+            stops: 0,
         };
         sp.eintr_left = eintr;
         sp
     }
     pub fn dead(&self) -> bool {
-        matches!(self.exit_at, Some(t) if self.now >= t)
+        !self.stopped && matches!(self.exit_at, Some(t) if self.now >= t)
+    }
+    /// SIGCONT (or the harness before a final drop): the child runs again; the
+    /// time it spent stopped does not count towards its exit
+    pub fn resume(&mut self) {
+        if self.stopped {
+            self.stopped = false;
+            let d = self.now - self.stopped_at;
+            if let Some(x) = self.exit_at.as_mut() {
+                *x = x.saturating_add(d.max(0));
+            }
+            self.stop_unreported = false;
+            self.cont_unreported = true;
+        }
     }
     pub fn advance(&mut self, ns: u64) {
         self.now = self.now.saturating_add(ns.min(i64::MAX as u64 / 4) as i64);
@@ -207,6 +237,30 @@ impl SimHooks for SimProc {
             self.log.push(Ev::Waitpid { pid, opts, ret: -1, status: 0, err: libc::ECHILD, t });
             return -1;
         }
+        if self.stopped && self.stop_unreported && opts & libc::WUNTRACED != 0 {
+            self.stop_unreported = false;
+            let w = (self.stop_sig << 8) | 0x7f;
+            if !status.is_null() {
+                unsafe { *status = w };
+            }
+            self.log.push(Ev::Waitpid { pid, opts, ret: pid, status: w, err: 0, t });
+            return pid;
+        }
+        if !self.stopped && self.cont_unreported && opts & libc::WCONTINUED != 0 && !self.dead() {
+            self.cont_unreported = false;
+            if !status.is_null() {
+                unsafe { *status = 0xffff };
+            }
+            self.log.push(Ev::Waitpid { pid, opts, ret: pid, status: 0xffff, err: 0, t });
+            return pid;
+        }
+        if opts & libc::WNOHANG == 0 && self.stopped {
+            // a blocking wait on a stopped child returns only when somebody continues it
+            self.hang = true;
+            ip::set_errno(libc::EINTR);
+            self.log.push(Ev::Waitpid { pid, opts, ret: -1, status: 0, err: libc::EINTR, t });
+            return -1;
+        }
         if opts & libc::WNOHANG == 0 && !self.dead() && self.eintr_left > 0 {
             // a signal handler ran while the call was blocked
             self.eintr_left -= 1;
@@ -262,7 +316,31 @@ impl SimHooks for SimProc {
             ret = -1;
         } else {
             ret = 0;
-            if !dead && sig != 0 {
+            let job_stop = sig == libc::SIGSTOP || sig == libc::SIGTSTP || sig == libc::SIGTTIN || sig == libc::SIGTTOU;
+            if !dead && job_stop {
+                if !self.stopped {
+                    self.stopped = true;
+                    self.stopped_at = self.now;
+                    self.stop_sig = sig;
+                    self.stop_unreported = true;
+                    self.cont_unreported = false;
+                    self.stops += 1;
+                }
+            } else if !dead && sig == libc::SIGCONT {
+                self.resume();
+                if let Some(p) = self.pending_sig.take() {
+                    // delivered now
+                    let _ = self.kill(pid, p);
+                    self.log.pop();
+                }
+            } else if !dead && self.stopped && sig != 0 && sig != libc::SIGKILL {
+                // stays pending until the child continues
+                self.pending_sig = Some(sig);
+            } else if !dead && sig != 0 {
+                if sig == libc::SIGKILL {
+                    self.resume();
+                    self.cont_unreported = false;
+                }
                 let reaction = if sig == libc::SIGKILL {
                     Reaction::Die(self.plan.kill_delay)
                 } else if sig == libc::SIGTERM {
